@@ -16,4 +16,5 @@ func Enter(ctx context.Context, call any, task string) context.Context { return 
 func Child(ctx context.Context, kind string, idx int) context.Context  { return ctx }
 func Adopt(ctx context.Context, call any) context.Context              { return ctx }
 func Ev(ctx context.Context, kind string, args ...any)                 {}
+func Pause(ctx context.Context)                                        {}
 func ErrClass(err error) string                                        { return "" }
